@@ -7,7 +7,9 @@
 //!  pair : A (accept queue, rate ra, ma streams) and B (connect queue, rate rb, mb streams), capability 0;
 //!         na / nb application tasks per side loop { open; hold; drop } as fast as the mux lets them.
 //!  flood: B as above; side A is not a mux but the harness writing a valid handshake followed by
-//!         `rounds` x (OPEN, CLOSE) on every stream id, without ever waiting for B.
+//!         `rounds` x (OPEN, CLOSE) on every stream id, without ever waiting for B. With "warm":["ns"...]
+//!         the peer idles first (only the handshake is sent, the clock advances by `warm`), so B's streams
+//!         sit in the OPEN handshake, and then answers everything at once.
 //! The clock only moves by the scripted advances; before each one the runtime is drained.
 //! output: {"events":[[side, +1|-1, "<ns>"]...] in order, "status":[..]}
 use std::{
@@ -191,6 +193,7 @@ async fn run_case(c: &Value) -> Value {
     let hold_a = durs(&c["hold_a"]);
     let hold_b = durs(&c["hold_b"]);
     let advs = durs(&c["advs"]);
+    let warm = durs(&c["warm"]);
     let rounds = c["rounds"].as_u64().unwrap_or(0);
     let mut raw_end = None;
     let mut ta = None;
@@ -231,11 +234,28 @@ async fn run_case(c: &Value) -> Value {
                 Ok(())
             });
         }
+        // raw peer: the mux handshake first; its OPEN / CLOSE frames only after the idle phase `warm`
         if let Some(raw) = raw_end.as_mut() {
             let hs = encode_handshake(&[(0, ma)], &[]);
             let mut bytes = (hs.len() as u32).to_le_bytes().to_vec();
             bytes.extend_from_slice(&hs);
+            raw.write_all(&bytes).await.unwrap();
+        }
+        for i in 0..na {
+            s.spawn_bg(app(ctx, qa.clone(), 0, hold_a.clone(), i, t0, ev2.clone(), activity.clone()));
+        }
+        for i in 0..nb {
+            s.spawn_bg(app(ctx, qb.clone(), 1, hold_b.clone(), i, t0, ev2.clone(), activity.clone()));
+        }
+        let mut warm_ok = true;
+        if let Some(raw) = raw_end.as_mut() {
+            for d in warm {
+                warm_ok = warm_ok && settle(&activity).await;
+                clock.advance(d);
+                activity.fetch_add(1, Ordering::SeqCst);
+            }
             let n = std::cmp::min(ma, mb) as u16;
+            let mut bytes = vec![];
             for _ in 0..rounds {
                 for id in 0..n {
                     bytes.extend_from_slice(&header_new(0, 0, id)); // OPEN, ACCEPT side
@@ -244,11 +264,8 @@ async fn run_case(c: &Value) -> Value {
             }
             raw.write_all(&bytes).await.unwrap();
         }
-        for i in 0..na {
-            s.spawn_bg(app(ctx, qa.clone(), 0, hold_a.clone(), i, t0, ev2.clone(), activity.clone()));
-        }
-        for i in 0..nb {
-            s.spawn_bg(app(ctx, qb.clone(), 1, hold_b.clone(), i, t0, ev2.clone(), activity.clone()));
+        if !warm_ok {
+            capped2.store(1, Ordering::SeqCst);
         }
         for d in advs {
             if !settle(&activity).await {
